@@ -457,6 +457,9 @@ class Tr:
             val = ast.BinOp(left=self._load(st.target), op=st.op, right=st.value)
             return self.assign(st.target, val, env, nxt, ind)
         if isinstance(st, ast.Expr) and isinstance(st.value, ast.Call):
+            fn_text = ast.unparse(st.value.func)
+            if fn_text == "print" or fn_text.split(".")[0] in ("logging", "logger", "log", "warnings"):
+                return nxt(env)                                      # diagnostics: no effect on the values modelled
             return self.call_stmt(st.value, env, nxt, ind)
         if isinstance(st, ast.If):
             return self.if_stmt(st, rest, env, k, ind)
